@@ -49,6 +49,9 @@ func validatePoolCreationFee(i interface{}) error {
 	if !v.IsValid() {
 		return fmt.Errorf("invalid minimum deposit: %s", v)
 	}
+	if v.Amount.BigInt().BitLen() > 255 {
+		return fmt.Errorf("pool creation fee too large (more than 255 bits): %s", v)
+	}
 	return nil
 }
 
